@@ -70,7 +70,9 @@ partial def loop (h : IO.FS.Stream) (st : State) : IO Unit := do
   | ["reset"] => IO.println "reset"; loop h init
   | _ =>
     if st.fatal then loop h st
-    else match parseOp toks with
+    else match (match toks with
+                | ["reload", id] => some (Op.reload (st.loaded.findIdx (·.1 == id.toNat!)))
+                | _ => parseOp toks) with
       | none => IO.println s!"bad op {line.trimAscii.toString}"; loop h st
       | some op =>
         -- `st.err` is kept `none` here after a failed link (no operation of the model reads `err`,
@@ -87,6 +89,7 @@ structure SpecSt where
   mods : List (Nat × List Name) := []                 -- every module loaded so far
   frozen : List (Nat × List (Name × Nat)) := []       -- values fixed when the interface was installed
   stop : Bool := false
+  unlinked : List Nat := []                           -- ids reloaded and not linked again yet
 
 def fmtVals (vs : List (Name × Nat)) : String :=
   ",".intercalate (vs.map fun p => nameStr p.1 ++ "=" ++ toString p.2)
@@ -94,6 +97,17 @@ def fmtVals (vs : List (Name × Nat)) : String :=
 def specStep (st : SpecSt) (op : Op) : SpecSt × String :=
   let r := st.r
   match op with
+  | .reload k =>
+    match (loadsR r)[k]? with
+    | none => (st, "bad reload")
+    | some (id, ds) =>
+      let names := (ds.map Decl.name).eraseDups
+      let funcs := names.filter fun n => declExport id ds n == some (.func id)
+      let clashF := funcs.any fun n => match lastDefR r n with | some (.func _) => true | _ => false
+      let clashO := funcs.any fun n => (lastDefR r n).isSome
+      if clashF && !redefOkR r then ({ st with stop := true }, "err MIR_repeated_decl_error")
+      else if clashO && !redefOkR r then ({ st with stop := true }, "any")
+      else ({ st with r := op :: r, frozen := st.frozen.filter (·.1 != id), unlinked := id :: st.unlinked }, "ok")
   | .loadModule id ds =>
     if !declsOk ds then ({ st with stop := true }, "any")
     else
@@ -122,11 +136,17 @@ def specStep (st : SpecSt) (op : Op) : SpecSt × String :=
       let frozen' := if ifc.isSome then
           st.frozen ++ (st.mods.filter (pend.contains ·.1)).map (fun m => (m.1, vals m.2))
         else st.frozen
-      ({ st with r := op :: r, frozen := frozen' }, "ok" ++ line)
+      ({ st with r := op :: r, frozen := frozen', unlinked := if ifc.isSome then [] else st.unlinked },
+       "ok" ++ line)
   | .call =>
     -- a module bound to an external with address NULL cannot be called: nothing is demanded
     if st.frozen.any (fun m => m.2.any (·.2 == 0)) then ({ st with stop := true }, "any")
-    else ({ st with r := op :: r }, "ok" ++ String.join (st.frozen.map fun m => s!" m{m.1}:" ++ fmtVals m.2))
+    -- a value that is the id of a module reloaded and not linked again may be one of its functions,
+    -- whose thunk leads to undefined_interface until the next link: this line is not compared
+    else if st.frozen.any (fun m => m.2.any (fun p => st.unlinked.contains p.2)) then
+      ({ st with r := op :: r }, "skip")
+    else ({ st with r := op :: r }, "ok" ++ String.join (st.mods.filterMap fun m =>
+            (st.frozen.lookup m.1).map fun vs => s!" m{m.1}:" ++ fmtVals vs))
 
 partial def specLoop (h : IO.FS.Stream) (st : SpecSt) : IO Unit := do
   let line ← h.getLine
@@ -137,7 +157,9 @@ partial def specLoop (h : IO.FS.Stream) (st : SpecSt) : IO Unit := do
   | ["reset"] => IO.println "reset"; specLoop h {}
   | _ =>
     if st.stop then specLoop h st
-    else match parseOp toks with
+    else match (match toks with
+                | ["reload", id] => some (Op.reload (st.mods.findIdx (·.1 == id.toNat!)))
+                | _ => parseOp toks) with
       | none => IO.println s!"bad op {line.trimAscii.toString}"; specLoop h st
       | some op =>
         let (st', out) := specStep st op
